@@ -233,7 +233,8 @@ end Props.C12
 `lift_x` answering inside the `n`-torsion (`02 ‖ x(P)` of every such `P` with even y qualifies:
 `Btc.E2E.pointFromOctets_sub_even`).  T1's conclusions are then about `Btc.EC.ops C` ITSELF; T2 compares the private
 tweak over `Btc.EC.ops C` with the public tweak over `opsSub K`, identities of points being the code's `==` on raw
-pairs.  For secp256k1 the only hypotheses are the primality of `p` and of `n`. -/
+pairs.  For secp256k1 nothing is assumed about the curve (primality of `p`, `n`: Pratt certificates,
+`Btc.E2E.secp256k1_p_prime`, `secp256k1_n_prime`). -/
 namespace Props.C12
 open Btc Btc.EC Btc.C01 Btc.E2E Btc.Taproot Gen.Taproot
 
@@ -276,10 +277,10 @@ theorem sub_answers_imp_ec {p : ℕ} [Fact p.Prime] {C : Curve} (K : CurveOk p C
   ⟨fun _ _ _ h => tweakedPubkey_opsSub_ok K H h, fun _ _ _ h => outputPubkey_opsSub_ok K H h,
    fun _ _ _ _ h => inputScriptSig_opsSub_ok K H h, fun _ _ _ _ h => checkOutputPubkey_opsSub_ok K H h⟩
 
-/-- T1 on secp256k1: ONLY primality of `p` and `n` assumed -/
-theorem completeness_secp256k1 (hp : Nat.Prime secp256k1_p) (hn : Nat.Prime secp256k1_n) {H : TagHash}
-    (h32 : Len32 H) (sec : Bytes) (tree : Tree) (P : SecpPt hp) (t : ℤ) (hdepth : tree.depth ≤ 128)
-    (hP : pointFromOctets (secpOps hp hn) sec = .ok P)
+/-- T1 on secp256k1, unconditional (primality of `p`, `n` proved: Pratt certificates) -/
+theorem completeness_secp256k1 {H : TagHash}
+    (h32 : Len32 H) (sec : Bytes) (tree : Tree) (P : SecpPt) (t : ℤ) (hdepth : tree.depth ≤ 128)
+    (hP : pointFromOctets secpOps sec = .ok P)
     (ht : tapTweak (EC.ops secp256k1) H (xOnly sec) (root H tree) = .ok t)
     (hQ : (EC.ops secp256k1).isZero (tweakPoint (EC.ops secp256k1) P.1 t) = false) :
     pointFromOctets (EC.ops secp256k1) sec = .ok P.1 ∧
@@ -289,25 +290,25 @@ theorem completeness_secp256k1 (hp : Nat.Prime secp256k1_p) (hn : Nat.Prime secp
       ∃ s c, inputScriptSig (EC.ops secp256k1) H (some sec) tree i = .ok (s, c) ∧
         checkOutputPubkey (EC.ops secp256k1) H
           (outKey (EC.ops secp256k1) (tweakPoint (EC.ops secp256k1) P.1 t)).1 s c = .ok true :=
-  Btc.E2E.completeness_secp256k1 hp hn h32 sec tree P t hdepth hP ht hQ
+  Btc.E2E.completeness_secp256k1 h32 sec tree P t hdepth hP ht hQ
 
 /-- T2 on secp256k1 -/
-theorem key_agreement_secp256k1 (hp : Nat.Prime secp256k1_p) (hn : Nat.Prime secp256k1_n) {H : TagHash}
-    (d : ℤ) (h0 : 0 < d) (h1 : d < secp256k1.n) (sec h : Bytes) (P' : SecpPt hp)
-    (hP : pointFromOctets (secpOps hp hn) sec = .ok P')
+theorem key_agreement_secp256k1 {H : TagHash}
+    (d : ℤ) (h0 : 0 < d) (h1 : d < secp256k1.n) (sec h : Bytes) (P' : SecpPt)
+    (hP : pointFromOctets secpOps sec = .ok P')
     (hsame : (EC.ops secp256k1).eq P'.1 ((EC.ops secp256k1).mul d secp256k1.G) = true ∨
       (EC.ops secp256k1).eq P'.1 ((EC.ops secp256k1).neg ((EC.ops secp256k1).mul d secp256k1.G)) = true)
     (hx : xOnly sec = beBytes 32 ((EC.ops secp256k1).x ((EC.ops secp256k1).mul d secp256k1.G)).toNat) :
-    (∀ e, tweakedPrvkey (EC.ops secp256k1) H d h = .error e ↔ tweakedPubkey (secpOps hp hn) H sec h = .error e) ∧
+    (∀ e, tweakedPrvkey (EC.ops secp256k1) H d h = .error e ↔ tweakedPubkey secpOps H sec h = .error e) ∧
     (∀ d2, tweakedPrvkey (EC.ops secp256k1) H d h = .ok d2 →
       ∃ t, tapTweak (EC.ops secp256k1) H (xOnly sec) h = .ok t ∧ 0 ≤ d2 ∧ d2 < secp256k1.n ∧
-        tweakedPubkey (secpOps hp hn) H sec h =
+        tweakedPubkey secpOps H sec h =
           .ok (outKey (EC.ops secp256k1) (tweakPoint (EC.ops secp256k1) P'.1 t)) ∧
         (EC.ops secp256k1).eq ((EC.ops secp256k1).mul d2 secp256k1.G) (tweakPoint (EC.ops secp256k1) P'.1 t) = true ∧
         ((EC.ops secp256k1).isZero (tweakPoint (EC.ops secp256k1) P'.1 t) = false →
           outKey (EC.ops secp256k1) ((EC.ops secp256k1).mul d2 secp256k1.G) =
             outKey (EC.ops secp256k1) (tweakPoint (EC.ops secp256k1) P'.1 t))) :=
-  Btc.E2E.key_agreement_secp256k1 hp hn d h0 h1 sec h P' hP hsame hx
+  Btc.E2E.key_agreement_secp256k1 d h0 h1 sec h P' hP hsame hx
 
 -- non-vacuity on `y² = x³ + 7` over `F₄₃` (`CurveOk` PROVED, nothing assumed): internal key `02 ‖ 21` (`4•G = (21, 18)`),
 -- three-leaf tree; every hypothesis of T1 is discharged and its verdict is about btclib's arithmetic on raw pairs
